@@ -46,6 +46,7 @@ type FilterSpec struct {
 	Registered bool      `json:"-"`
 	Queried    bool      `json:"-"`
 	Emptied    bool      `json:"-"` // a matching relation table was emptied while the filter was registered
+	Epoch      int       `json:"-"` // numbering epoch (see Interp.epoch) in which the fixed targets were resolved
 	Stale      bool      `json:"-"` // fixed target handle predates the last Reset: outside the domain
 }
 
